@@ -8,7 +8,7 @@ Renderer on target language.
 from typing import List, Optional
 
 from bitproto._ast import Proto
-from bitproto.errors import UnsupportedLanguageToRender
+from bitproto.errors import RendererError, UnsupportedLanguageToRender
 from bitproto.renderer.impls import renderer_registry
 
 
@@ -28,13 +28,19 @@ def render(
         raise UnsupportedLanguageToRender()
 
     outs = []
-    for renderer_cls in clss:
-        renderer = renderer_cls(
-            proto,
-            outdir=outdir,
-            optimization_mode=optimization_mode,
-            optimization_mode_filter_messages=optimization_mode_filter_messages,
-            optimization_mode_endian=optimization_mode_endian,
+    try:
+        for renderer_cls in clss:
+            renderer = renderer_cls(
+                proto,
+                outdir=outdir,
+                optimization_mode=optimization_mode,
+                optimization_mode_filter_messages=optimization_mode_filter_messages,
+                optimization_mode_endian=optimization_mode_endian,
+            )
+            outs.append(renderer.render())
+    except RecursionError:
+        raise RendererError(
+            "Definitions too deeply nested or chained to render "
+            "(recursion limit exceeded)."
         )
-        outs.append(renderer.render())
     return outs
